@@ -296,6 +296,52 @@ pub fn check_bad(c: &Bad) -> Outcome {
     }
 }
 
+/// two literals in one program: a cooked literal and the raw literal with the *same body text* (and variations of prefix
+/// case); each must denote what it denotes when it stands alone, whatever else the program contains
+#[derive(Clone, Debug, Serialize, Deserialize)]
+pub struct Pair {
+    pub cooked: Case,
+    /// spell the twin with upper-case prefix letters
+    pub twin_upper: bool,
+    /// 0: [A, B]   1: [B, A]   2: [A, B, A]   3: A + B (strings only)   4: {'k': A}.k == B ? [A, B] : [A, B]
+    pub shape: u8,
+}
+
+pub fn check_pair(c: &Pair) -> Outcome {
+    let Some(a_src) = render(&c.cooked) else { return Outcome::Skip("style-cannot-spell-this-body") };
+    let st = &c.cooked.style;
+    let body = &a_src[st.prefix().len() + st.delim().len()..a_src.len() - st.delim().len()];
+    // the raw twin: same quotes, same body text
+    let twin_style = Style { raw: !st.raw, upper: c.twin_upper, ..st.clone() };
+    let b_src = format!("{}{}{}{}", twin_style.prefix(), twin_style.delim(), body, twin_style.delim());
+    let alone = |src: &str| -> Option<V> {
+        match sut::run_src(src, &[]) {
+            Ran::Done(R::Val(v)) => Some(v),
+            _ => None,
+        }
+    };
+    // what each denotes alone is the single-literal families' business; here only: the same in company
+    let (Some(va), Some(vb)) = (alone(&a_src), alone(&b_src)) else { return Outcome::Skip("one-of-the-two-does-not-compile-alone") };
+    let (src, exp) = match c.shape {
+        0 => (format!("[{a_src}, {b_src}]"), V::List(vec![va.clone(), vb.clone()])),
+        1 => (format!("[{b_src}, {a_src}]"), V::List(vec![vb.clone(), va.clone()])),
+        2 => (format!("[{a_src}, {b_src}, {a_src}]"), V::List(vec![va.clone(), vb.clone(), va.clone()])),
+        3 => (
+            format!("{a_src} + {b_src}"),
+            match (&va, &vb) {
+                (V::Str(x), V::Str(y)) => V::Str(format!("{x}{y}")),
+                // `+` on bytes is not part of this implementation's operator set (nor of the property)
+                _ => return Outcome::Skip("not-concatenable"),
+            },
+        ),
+        _ => (format!("{{'k': {a_src}, 'j': {b_src}}}.k == {a_src} ? [{b_src}, {a_src}] : []"), V::List(vec![vb.clone(), va.clone()])),
+    };
+    match sut::run_src(&src, &[]) {
+        Ran::Done(R::Val(g)) if crate::model::same(&g, &exp) => pass_n(!crate::model::same(&va, &vb), vec![if crate::model::same(&va, &vb) { "pair:same-value" } else { "pair:cooked-and-raw-differ" }]),
+        o => fail(format!("`{src}`: alone, {a_src} denotes {} and {b_src} denotes {}; together the program should give {}, observed {}", sut::show_v(&va), sut::show_v(&vb), sut::show_v(&exp), o.show())),
+    }
+}
+
 fn cooked_styles() -> Vec<Style> {
     Style::all().into_iter().filter(|s| !s.raw).collect()
 }
@@ -425,7 +471,7 @@ fn gen_case(u: &mut Chooser) -> Case {
 pub fn run(r: &mut Runner) {
     r.rule = "cases: (spelling, body pieces with a per-piece choice of verbatim or escape form): sixteen spellings = {string, bytes} x {', \", ''', \"\"\"} x {cooked, raw}; exhaustively every \\xHH and \\XHH, every \\OOO, \
               every single-character escape, every \\uHHHH (quick: stride-sampled) and the \\U plane boundaries in every cooked spelling, alone and between two ordinary characters; every invalid escape form expecting a compile error \
-              (\\u / \\U in bytes literals included); random bodies over an alphabet rich in quotes, backslashes, CR/LF, controls, non-ASCII and astral characters rendered in every spelling that can spell them. \
+              (\\u / \\U in bytes literals included); pairs of a cooked literal and the raw literal with the same body text inside one program (each must denote what it denotes alone); random bodies over an alphabet rich in quotes, backslashes, CR/LF, controls, non-ASCII and astral characters rendered in every spelling that can spell them. \
               Oracle: the literal evaluates to exactly the string / byte sequence the renderer started from. Non-trivial: an escape, a quote character in the body, non-ASCII, or a triple / raw / bytes spelling; distinct by source."
         .into();
     r.assumptions = vec!["spellability is decided conservatively from the STRING / BYTES token rules of CEL.g4 (DESIGN B.4)".into()];
@@ -449,6 +495,20 @@ pub fn run(r: &mut Runner) {
     }
     let n = r.tier.n(30_000, 1_000_000);
     r.random("random-bodies", 64, n, gen_case, check);
+    r.random(
+        "cooked-and-raw-twins-in-one-program",
+        64,
+        n / 3,
+        |u| {
+            let mut cooked = gen_case(u);
+            cooked.style.raw = u.chance(1, 8);
+            if cooked.style.raw {
+                cooked.pieces.retain(|p| p.how == How::Verbatim);
+            }
+            Pair { cooked, twin_upper: u.flip(), shape: u.below(5) as u8 }
+        },
+        check_pair,
+    );
     for s in Style::all().into_iter().filter(|s| !s.dquote) {
         r.expect_class(s.name(), 200);
     }
